@@ -550,10 +550,56 @@ func (a Actor) Equals(with Item) bool {
 }
 
 func (e Endpoints) GobEncode() ([]byte, error) {
-	return nil, nil
+	mm := make(map[string][]byte)
+	for k, it := range map[string]Item{
+		"uploadMedia":                e.UploadMedia,
+		"oauthAuthorizationEndpoint": e.OauthAuthorizationEndpoint,
+		"oauthTokenEndpoint":         e.OauthTokenEndpoint,
+		"provideClientKey":           e.ProvideClientKey,
+		"signClientKey":              e.SignClientKey,
+		"sharedInbox":                e.SharedInbox,
+	} {
+		if it == nil {
+			continue
+		}
+		raw, err := gobEncodeItem(it)
+		if err != nil {
+			return nil, err
+		}
+		mm[k] = raw
+	}
+	if len(mm) == 0 {
+		return []byte{}, nil
+	}
+	bb := bytes.Buffer{}
+	if err := gob.NewEncoder(&bb).Encode(mm); err != nil {
+		return nil, err
+	}
+	return bb.Bytes(), nil
 }
 
 func (e *Endpoints) GobDecode(data []byte) error {
+	if e == nil || len(data) == 0 {
+		return nil
+	}
+	mm, err := gobDecodeObjectAsMap(data)
+	if err != nil {
+		return err
+	}
+	for k, dst := range map[string]*Item{
+		"uploadMedia":                &e.UploadMedia,
+		"oauthAuthorizationEndpoint": &e.OauthAuthorizationEndpoint,
+		"oauthTokenEndpoint":         &e.OauthTokenEndpoint,
+		"provideClientKey":           &e.ProvideClientKey,
+		"signClientKey":              &e.SignClientKey,
+		"sharedInbox":                &e.SharedInbox,
+	} {
+		if raw, ok := mm[k]; ok {
+			if *dst, err = gobDecodeItem(raw); err != nil {
+				return err
+			}
+		}
+	}
 	return nil
 }
 
